@@ -193,7 +193,9 @@ def run(ctx, rep):
     okr = False
     for n in [x for x in gd.live if x.kind == "stmt" and x.ast is not None and A.find_calls(x.ast, "self._recv")]:
         hs = [t for t, l in n.succ if l == "exc" and t.kind == "except"]
-        okr = any("socket.error" in A.src(h.ast.type) or "Exception" in A.src(h.ast.type) for h in hs if h.ast.type is not None)
+        # (socket.error, IOError and EnvironmentError are OSError itself on Python 3)
+        okr = any(any(nm_ in A.src(h.ast.type) for nm_ in ("socket.error", "OSError", "IOError", "EnvironmentError", "Exception"))
+                  for h in hs if h.ast.type is not None) or any(h.ast.type is None for h in hs)
     rep.ob("R18.1", "_work: a failing receive is absorbed and the loop continues", okr,
            "except (socket.error, socket.timeout): continue" if okr else "receive errors leave the main loop", fw.loc, kind="site")
 
